@@ -34,8 +34,9 @@ def gen_history(rng, hid, length):
             acc = rng.choice([(True, False), (False, True), (True, True), (True, True), (False, False)])
             c = {"call": "open", "abi": abi(), "dirfd": dirfd, "path": name, "abs": rng.random() < 0.15, "oflags": oflags,
                  "rd": acc[0], "wr": acc[1], "app": rng.random() < 0.25}
+            c["parent"] = os.path.dirname(name)
             if dirfd != 3:
-                c["path"], c["abs"] = "c", False         # relative to the directory descriptor opened on d
+                c["path"], c["abs"], c["parent"] = "c", False, ""         # relative to the directory descriptor opened on d
             calls.append(c)
             target = c["path"] if dirfd == 3 else "d/c"
             ok = (target in existing and not (oflags & 1 and oflags & 4) and not oflags & 2) or (target not in existing and oflags & 1 and not oflags & 2)
@@ -110,7 +111,9 @@ def run_all(v, hists, wd, tier, pid="C12", ls_after=("open", "write", "pwrite"))
                 poisoned = True
                 break
             if m["errno"] == 999:
-                continue                 # the model leaves this call unspecified
+                if c["call"] in ("seek", "tell", "read", "pread", "filestat", "pathstat", "readlink", "fdstat", "readdir", "sync", "datasync", "prestat", "prestatname"):
+                    continue             # the model leaves this call unspecified; it cannot have changed anything the model tracks
+                break                    # unspecified and possibly state-changing: the rest of the history is not comparable
             why = wasi.compare_call(c, m, a, sb) if kind == "call" else wasi.compare_ls(m, a)
             compared += 1
             distinct.add(str(c) + str(m["errno"]))
